@@ -191,3 +191,30 @@ def _sample_read(rnd):
     mb.reopen = False
     return {"self": mb, "address": rnd.choice([0, 0x20000000, rnd.getrandbits(32)]), "length": length, "mem_id": 0, "progress_callback": None,
             "fast_mode": rnd.random() < 0.2}
+
+
+# ----------------------------------------------------------------------------------------------------------------------
+# USB-HID transport: report framing (report id, pad, 16-bit little-endian payload length, payload)
+# ----------------------------------------------------------------------------------------------------------------------
+from spsdk.mboot.protocol.bulk_protocol import MbootBulkProtocol, ReportId  # noqa: E402
+
+
+@contract("spsdk.mboot.protocol.bulk_protocol:MbootBulkProtocol._create_frame")
+def _(self: SubObj(MbootBulkProtocol), data: Bytes(lo=0, hi=65535), report_id: OneOf(ReportId.CMD_OUT, ReportId.DATA_OUT)) -> bytes:
+    returns(bytes([report_id.tag, 0]) + len(data).to_bytes(2, "little") + data, label="id-pad-len16-payload")
+    pure()
+    sample_with(lambda rnd: {"self": object.__new__(MbootBulkProtocol), "data": bytes(rnd.getrandbits(8) for _ in range(rnd.choice([0, 1, 32, 255, 256, 1016]))),
+                             "report_id": rnd.choice([ReportId.CMD_OUT, ReportId.DATA_OUT])})
+
+
+@contract("spsdk.mboot.protocol.bulk_protocol:MbootBulkProtocol._parse_frame")
+def _(raw_data: Bytes(lo=4, hi=1024 + 4)) -> Opaque():
+    # a DATA_IN report hands out exactly the announced payload (any announced length 1..65535, also >= 256), an announced length of
+    # zero is the device's abort; (CMD_IN reports go to the response decoder, not under contract here)
+    let(plen=raw_data[2] + 256 * raw_data[3])
+    requires(raw_data[0] == ReportId.DATA_IN.tag)
+    raises(McuBootDataAbortError, plen == 0, label="zero-length-report-is-an-abort")
+    returns(raw_data[4: 4 + plen], label="payload-of-the-announced-16-bit-length")
+    pure()
+    sample_with(lambda rnd: (lambda n: {"raw_data": bytes([4, 0]) + n.to_bytes(2, "little") + bytes(rnd.getrandbits(8) for _ in range(min(n, 1020)))})(
+        rnd.choice([0, 1, 32, 255, 256, 512, 1016])))
